@@ -157,10 +157,20 @@ def encoder_order(chk, c, rule):
     for fq in ('core.Element._get_children', 'core.Segment._get_children', 'core.Element.to_er7', 'core.Segment.to_er7',
                'core.ElementList.get_ordered_children', 'core._remove_trailing'):
         fi = ix.func(fq)
+        def only_counted(call):
+            # the reordered sequence only feeds a count: `t = list(takewhile(p, reversed(xs)))` with t used as len(t) only
+            st_ = call
+            while getattr(st_, '_parent', None) is not None and not isinstance(st_, ast.stmt):
+                st_ = st_._parent
+            if not (isinstance(st_, ast.Assign) and len(st_.targets) == 1 and isinstance(st_.targets[0], ast.Name)):
+                return False
+            t_ = st_.targets[0].id
+            uses = [x for x in ast.walk(fi.node) if isinstance(x, ast.Name) and x.id == t_ and isinstance(x.ctx, ast.Load)]
+            return bool(uses) and all(isinstance(getattr(u, '_parent', None), ast.Call) and norm(u._parent.func) == 'len'
+                                      for u in uses)
         bad = [norm(n)[:40] for n in own_nodes(fi.node) if isinstance(n, ast.Call) and (
-            (isinstance(n.func, ast.Name) and n.func.id in ('sorted', 'set', 'frozenset')) or
-            (isinstance(n.func, ast.Attribute) and n.func.attr in ('sort', 'reverse', 'insert')) or
-            (isinstance(n.func, ast.Name) and n.func.id == 'reversed' and fq != 'core._remove_trailing'))]
+            (isinstance(n.func, ast.Name) and n.func.id in ('sorted', 'set', 'frozenset', 'reversed') and not only_counted(n)) or
+            (isinstance(n.func, ast.Attribute) and n.func.attr in ('sort', 'reverse', 'insert')))]
         chk.ob(rule, '%s does not reorder' % fq, not bad, 'reordering: %s' % bad, fi.loc, key='%s|%s' % (rule, fq))
     rt = ix.func('core._remove_trailing')
     rp = rt.params[0]
@@ -384,11 +394,7 @@ def msh_pairing(chk, c, rule):
     for fq in ('parser.parse_segment', 'core.Segment.parse_children'):
         fi = ix.func(fq)
         ok = False
-        for n in own_nodes(fi.node):
-            ch = pat.cond_choice(n.value) if isinstance(n, ast.Assign) else None
-            if ch is None:
-                continue
-            t, a_, b_ = ch
+        for t, _tgt, a_, b_ in pat.choice_assignments(fi.node):
             m = pat.membership(t)
             if m and m[1] == frozenset(['MSH']) and isinstance(a_, ast.Subscript) and isinstance(b_, ast.Subscript) and \
                     norm(a_.value) == norm(b_.value) and norm(a_.slice) == '3:' and norm(b_.slice) == '4:':
